@@ -422,3 +422,58 @@ def eqtable(facts: CppFacts, templates):
     res.samples = ["equals_method_test: 18 cases; unchecked_equals_method_test: 8 cases"]
     res.analysed = ["compiler/back_end/cpp/generated_code_templates", MAYBE]
     return res
+
+
+def oktable(facts: CppFacts, templates):
+    """R-OKTABLE (C01): the per-field clause of the generated Ok() (`ok_method_test`) over has_x in {unknown, absent,
+    present} and x.Ok() in {false, true}: the structure is not Ok exactly when the presence is unknown or the field is
+    present and not Ok; an absent field's Ok() is irrelevant.  The switch form must reject an unknown discriminant."""
+    res = RuleResult("R-OKTABLE")
+    ax = _axioms(facts)
+    calc = Calculus(ax, {})
+    U, F, T = MaybeVal(False, None), MaybeVal(True, False), MaybeVal(True, True)
+    nm = {id(U): "unknown", id(F): "absent", id(T): "present"}
+    TPL = "compiler/back_end/cpp/generated_code_templates"
+    tname = "ok_method_test"
+    if tname not in templates:
+        raise AnalysisError(f"template {tname} vanished")
+    text = re.sub(r"//[^\n]*", "", templates[tname]["text"])
+    text = text.replace("has_${field}()", "HAS").replace("${field}().Ok()", "FIELD_OK")
+    if "${field}" in text:
+        raise AnalysisError(f"{tname}: unexpected use of ${{field}}")
+    conds = re.findall(r"if\s*\(((?:[^()]|\((?:[^()]|\([^()]*\))*\))*)\)\s*return\s+false\s*;", text)
+    rest = re.sub(r"if\s*\(((?:[^()]|\((?:[^()]|\([^()]*\))*\))*)\)\s*return\s+false\s*;", "", text).strip()
+    if not conds or rest:
+        raise AnalysisError(f"{tname}: not a sequence of `if (...) return false;`")
+    try:
+        parsed = [_parse(c) for c in conds]
+    except Bad as b:
+        raise AnalysisError(f"{tname}: {b}")
+    for has in (U, F, T):
+        for ok in (False, True):
+            res.instances += 1
+            try:
+                bad = any(calc._bool(calc.ev(c, {"HAS": has, "FIELD_OK": ok})) for c in parsed)
+            except Bad as b:
+                raise AnalysisError(f"{tname}: {b}")
+            want = has == U or (has == T and not ok)
+            if bad != want:
+                res.add(f"{tname}|{nm[id(has)]}|{'ok' if ok else 'not-ok'}", f"{tname}: with the field {nm[id(has)]} and its view "
+                        f"{'Ok' if ok else 'not Ok'}, the structure is reported {'not Ok' if bad else 'Ok'}; expected the opposite",
+                        TPL, templates[tname]["line"], tname)
+    # switch form
+    res.instances += 2
+    if "ok_method_switch_block" not in templates or "ok_method_switch_case" not in templates:
+        raise AnalysisError("ok_method_switch_* templates vanished")
+    blk = re.sub(r"//[^\n]*", "", templates["ok_method_switch_block"]["text"])
+    case = re.sub(r"//[^\n]*", "", templates["ok_method_switch_case"]["text"])
+    m1 = re.search(r"if\s*\(\s*!\s*(\w+)\s*\.\s*Known\s*\(\s*\)\s*\)\s*return\s+false\s*;\s*switch\s*\(\s*\1\s*\.\s*ValueOrDefault\s*\(\s*\)\s*\)", blk)
+    if not m1:
+        res.add("ok_method_switch_block|unknown", "the switch form of Ok() does not return false for an unknown discriminant before "
+                "switching on its value (an unreadable tag would select `case 0`)", TPL, templates["ok_method_switch_block"]["line"], "ok_method_switch_block")
+    if not re.search(r"case\s+\$\{case_value\}\s*:\s*if\s*\(\s*!\s*\$\{field\}\(\)\s*\.\s*Ok\s*\(\s*\)\s*\)\s*return\s+false\s*;\s*break\s*;", case):
+        res.add("ok_method_switch_case|shape", "a switch case is not `case V: if (!field().Ok()) return false; break;` (a missing break "
+                "falls through into the next field's test)", TPL, templates["ok_method_switch_case"]["line"], "ok_method_switch_case")
+    res.samples = ["ok_method_test: 6 cases; switch form rejects an unknown discriminant, cases end in break"]
+    res.analysed = [TPL, MAYBE]
+    return res
